@@ -42,6 +42,8 @@ func execCase(c *wire.Case) (res *wire.Result) {
 		res.Compile = cr
 	case "compilefile":
 		opCompileFile(c, res)
+	case "jsonscan":
+		opJSONScan(c, res)
 	case "run", "json":
 		opRun(c, res)
 	case "astcmp":
@@ -332,6 +334,57 @@ func opRun(c *wire.Case, res *wire.Result) {
 	}
 }
 
+// opJSONScan: one program run on one text; then EVERY prefix length n of its result list with c.Ops <= n < c.Seed
+// is rendered both ways and both texts must be valid JSON (checked here, in the worker: shipping millions of
+// matches to the driver would cost more than rendering them).
+func opJSONScan(c *wire.Case, res *wire.Result) {
+	v, cr := doCompile(c.Src, c)
+	res.Compile = cr
+	if v == nil || len(c.Texts) == 0 {
+		return
+	}
+	var ms engine.Matches
+	func() {
+		defer func() {
+			if r := recover(); r != nil {
+				res.Panic = panicInfo(r)
+			}
+		}()
+		ms = v.Run(string(c.Texts[0]))
+	}()
+	res.Counters = map[string]int{"matches": len(ms)}
+	lo, hi := c.Ops, int(c.Seed)
+	for n := lo; n < hi && n <= len(ms); n++ {
+		sub := ms[:n]
+		var j, f string
+		var p any
+		func() {
+			defer func() { p = recover() }()
+			j, f = sub.Json(), sub.FormattedJson()
+		}()
+		if p != nil {
+			res.Mismatch = fmt.Sprintf("rendering a list of %d matches panicked: %v", n, p)
+			return
+		}
+		if !json.Valid([]byte(j)) {
+			res.Mismatch = fmt.Sprintf("Json() of a list of %d matches is not valid JSON (ends %q)", n, tailOf(j, 24))
+			return
+		}
+		if !json.Valid([]byte(f)) {
+			res.Mismatch = fmt.Sprintf("FormattedJson() of a list of %d matches is not valid JSON (ends %q)", n, tailOf(f, 24))
+			return
+		}
+		res.Counters["lengths_rendered"]++
+	}
+}
+
+func tailOf(s string, n int) string {
+	if len(s) > n {
+		return s[len(s)-n:]
+	}
+	return s
+}
+
 // compileViaFile: the next doCompile goes through CompileFile
 var compileViaFile bool
 
@@ -612,7 +665,24 @@ func opReader(c *wire.Case, res *wire.Result) {
 			return 1 + rng.intn(64)
 		}
 	}
+	var crowd []*files.Reader
+	defer func() {
+		for _, x := range crowd {
+			x.Close()
+		}
+	}()
 	for i := 0; i < c.Ops; i++ {
+		if i == c.Ops/2 || i == c.Ops/2+50 {
+			// a crowd of other readers is opened (and stays open) while this one is in the middle of its history:
+			// what one reader holds is its own
+			for k := 0; k < 90; k++ {
+				x := files.ReaderFromFile(c.Path)
+				x.Seek(rng.intn(size + 1))
+				x.Read(1 + rng.intn(16))
+				crowd = append(crowd, x)
+			}
+			counters["other_readers_opened_mid_history"] += 90
+		}
 		op := rng.intn(3)
 		switch op {
 		case 0: // Seek then Read, as the engine's READ does
@@ -687,7 +757,14 @@ func opGlob(c *wire.Case, res *wire.Result) {
 				res.Panic = panicInfo(r)
 			}
 		}()
-		list = files.ParsePath(c.Pattern).GetFileList(c.Dir)
+		parsed := files.ParsePath(c.Pattern)
+		list = parsed.GetFileList(c.Dir)
+		// a parsed pattern is a value: asked again (and from another, empty place in between) it answers the same
+		parsed.GetFileList(c.Dir + "/no-such-directory-xq")
+		again := parsed.GetFileList(c.Dir)
+		if strings.Join(again, "\x00") != strings.Join(list, "\x00") {
+			res.Mismatch = fmt.Sprintf("the same parsed pattern listed %d files at first and %d when asked again", len(list), len(again))
+		}
 	}()
 	res.Files = list
 }
@@ -825,12 +902,29 @@ func opConc(c *wire.Case, res *wire.Result) {
 		go func(idx []int) {
 			defer wg.Done()
 			<-start
-			for _, i := range idx {
-				calls[i].T0 = int64(time.Since(t0))
-				doCall(c, &calls[i], slots, true)
-				calls[i].T1 = int64(time.Since(t0))
-				if c.Yield {
-					runtime.Gosched()
+			reps := c.Rounds
+			if reps < 1 {
+				reps = 1
+			}
+			first := map[int]string{}
+			for rep := 0; rep < reps; rep++ {
+				for _, i := range idx {
+					if rep == 0 {
+						calls[i].T0 = int64(time.Since(t0))
+					}
+					doCall(c, &calls[i], slots, true)
+					calls[i].T1 = int64(time.Since(t0))
+					if rep == 0 {
+						first[i] = calls[i].Digest
+					} else if calls[i].Digest != first[i] && calls[i].Panic == "" {
+						// a storm repeats every call: all repetitions of one call must agree
+						calls[i].Panic = fmt.Sprintf("repetition %d of this call returned %s, the first one %s", rep, calls[i].Digest, first[i])
+						calls[i].Digest = first[i]
+						return
+					}
+					if c.Yield {
+						runtime.Gosched()
+					}
 				}
 			}
 		}(byG[gi])
